@@ -10,7 +10,7 @@ from ..num import wire, unwire, canon
 from ..pools import RecPool
 from . import C08
 
-STREAMS = ["linear", "rel", "switch", "stepwise", "buffer", "factory"]
+STREAMS = ["linear", "rel", "switch", "stepwise", "buffer", "factory", "factory_env"]
 RULE = ("every shipped periodic service is run by trio.run(run, clock=MockClock(autojump_threshold=0)) next to a "
         "scripted environment task; intervals / windows are dyadic, 20..120 periods (thorough up to 500); environment "
         "actions (pool state changes, demand writes through a Buffer) are placed before, on and after period "
@@ -112,6 +112,14 @@ def gen_case(rng, stream, maxp):
     elif stream == "factory":
         case["script"] = []
         return case
+    elif stream == "factory_env":
+        # between boundaries: demand goes up / down / stays, children disable themselves or lower
+        # their own demand (their supply stays) - so that supply == demand, supply > demand and
+        # supply < demand all meet children whose demands do not add up to the request
+        case["kind"] = "factory_env"
+        case["periods"] = min(case["periods"], 60)
+        case["script"] = [rng.choice(["inc", "inc", "same", "same", "dec", "disable", "disable", "halve"]) for _ in range(case["periods"])]
+        return case
     case["script"] = gen_script(rng, interval, periods, ["env"])
     return case
 
@@ -155,6 +163,8 @@ def impl(case):
     duration = float(interval * case["periods"] - interval / 8)
     if kind == "factory":
         return impl_factory(case, interval, duration)
+    if kind == "factory_env":
+        return impl_factory_env(case, interval, duration)
     p = case["pool"]
     pool = TimedPool(unwire(p["supply"]), unwire(p["demand"]), unwire(p["util"]), unwire(p["alloc"]))
     calls = []
@@ -255,8 +265,68 @@ def impl_factory(case, interval, duration):
             "error": err[0] if err else None, "target_writes": [], "init": {}}
 
 
+def impl_factory_env(case, interval, duration):
+    """a FactoryPool under a scripted environment; the state is sampled shortly after every boundary"""
+    from cobald.composite.factory import FactoryPool
+    made = []
+
+    def factory():
+        c = RecPool(1, 1, 1, 1, name="child%d" % len(made))
+        made.append(c)
+        return c
+
+    fp = FactoryPool(factory=factory, interval=float(interval))
+    err, samples = [], []
+    rnd = __import__("random").Random(json.dumps(case["script"]))
+
+    async def runner():
+        try:
+            await fp.run()
+        except trio.Cancelled:
+            raise
+        except BaseException as e:
+            err.append(type(e).__name__)
+
+    async def env():
+        await trio.sleep(float(interval) / 2)
+        for act in case["script"]:
+            active = sorted(fp._hatchery, key=lambda c: c.name)
+            if act == "inc":
+                fp.demand = fp.demand + 1
+            elif act == "dec" and fp.demand >= 1:
+                fp.demand = fp.demand - 1
+            elif act == "disable" and active:
+                rnd.choice(active).demand = 0
+            elif act == "halve" and active:
+                c = rnd.choice(active)
+                c.demand = F(c.demand) / 2
+            await trio.sleep(float(interval))
+
+    async def observer():
+        await trio.sleep(float(interval) * 1.25)
+        while True:
+            act = list(fp._hatchery)
+            samples.append({"t": trio.current_time(), "request": canon(F(fp.demand)),
+                            "active_demand": canon(sum((F(c.demand) for c in act), F(0))),
+                            "active_supply": canon(F(fp.supply)),
+                            "idle_active": sum(1 for c in act if c.demand <= 0),
+                            "both": len(set(fp._hatchery) & set(fp._mortuary)), "made": len(made)})
+            await trio.sleep(float(interval))
+
+    async def main():
+        with trio.move_on_after(duration):
+            async with trio.open_nursery() as nursery:
+                nursery.start_soon(env)
+                nursery.start_soon(observer)
+                nursery.start_soon(runner)
+
+    trio.run(main, clock=trio.testing.MockClock(autojump_threshold=0))
+    return {"ctor": "ok", "events": [], "step_times": [], "demands": [], "error": err[0] if err else None,
+            "target_writes": [], "init": {}, "samples": samples}
+
+
 def line(case, o):
-    if o.get("ctor") != "ok":
+    if o.get("ctor") != "ok" or case["kind"] == "factory_env":
         return None
     kind = case["kind"]
     base = {"interval": case["interval"], "pre": kind == "factory", "events": o["events"]}
@@ -286,6 +356,21 @@ def oracle(case, o):
     interval = unwire(case["interval"])
     if o["error"]:
         out.append(("run-raised:%s:%s" % (kind, o["error"]), "%s.run() raised %s on a well-behaved pool" % (kind, o["error"])))
+    if kind == "factory_env":
+        # after every boundary the adjustment has been made: no active child without demand, nobody both
+        # active and released, and - whenever the pool had less supply than requested or exactly as much
+        # (the growing branch) - the children's demands cover the request again
+        for sm in o["samples"]:
+            if sm["idle_active"]:
+                out.append(("factory-boundary-skipped", "t=%s: %d active child(ren) with no demand left after an interval boundary (request %s, active demand %s)" % (sm["t"], sm["idle_active"], sm["request"], sm["active_demand"])))
+                break
+            if sm["both"]:
+                out.append(("factory-both", "t=%s: a child is both active and released" % sm["t"]))
+                break
+            if unwire(sm["active_supply"]) <= unwire(sm["request"]) and unwire(sm["active_demand"]) < unwire(sm["request"]):
+                out.append(("factory-boundary-skipped", "t=%s: active demand %s does not cover the request %s after an interval boundary although the pool's supply %s does not exceed it" % (sm["t"], sm["active_demand"], sm["request"], sm["active_supply"])))
+                break
+        return out
     times = [unwire(t) for t in o["step_times"]]
     first = interval if kind == "factory" else F(0)
     expect_n = case["periods"] - (1 if kind == "factory" else 0)
@@ -323,6 +408,15 @@ def nontrivial(case, o):
 
 
 def shrinks(case):
+    if case["kind"] == "factory_env":
+        sc = case["script"]
+        if len(sc) > 1:
+            yield {**case, "script": sc[:len(sc) // 2], "periods": max(2, len(sc) // 2 + 1)}
+            yield {**case, "script": sc[:-1], "periods": max(2, len(sc))}
+        for i in range(len(sc)):
+            if sc[i] != "same":
+                yield {**case, "script": sc[:i] + ["same"] + sc[i + 1:]}
+        return
     if case["periods"] > 2:
         yield {**case, "periods": case["periods"] // 2, "script": [e for e in case.get("script", []) if unwire(e[0]) < unwire(case["interval"]) * (case["periods"] // 2)]}
     sc = case.get("script", [])
@@ -333,7 +427,7 @@ def shrinks(case):
 def run(ctx):
     for s in STREAMS:
         rng = ctx.rng(s)
-        n = ctx.n(60, 500) if s != "factory" else ctx.n(10, 60)
+        n = ctx.n(60, 500) if not s.startswith("factory") else (ctx.n(10, 60) if s == "factory" else ctx.n(40, 400))
         cases = [gen_case(rng, s, ctx.n(120, 500)) for _ in range(n)]
         corr.run_stream(ctx, s, cases, impl, line, oracle, nontrivial, shrinks, expect)
 
